@@ -623,3 +623,71 @@ def obs_records(ctx, k, act, d, nv, problems):
             except Exception as ex:
                 ctx["emit"].append({"fn": "records-raised", "at": k, "declined": 0, "api": api, "ncoll": len(colls),
                                     "err": f"{type(ex).__name__}: {str(ex)[:200]}"})
+
+
+# ------------------------------------------------------------------ C24 / C29 (source reads, laziness)
+def _io_logs(ctx, clear=True):
+    ev = []
+    for src in ctx.get("rec_src", []):
+        ev += src.log
+        if clear:
+            src.log = []
+    for coll in ctx["da_env"]:
+        fn = getattr(coll, "_verif_blockfn", None) if coll is not None else None
+        if fn is not None:
+            ev += fn.iolog
+            if clear:
+                del fn.iolog[:]
+    return ev
+
+
+def obs_io(ctx, k, act, d, nv, problems):
+    """mode 'reads' (C24): execute and record every read request + the value; mode 'lazy' (C29): go through inspecting,
+    optimizing, graph building and executing and record in which phase every read / user call happened."""
+    from . import iosrc
+
+    srcs = ctx.get("rec_src", [])
+    exp = ctx["env"][k]
+    if exp["kind"] == "err":
+        return
+    mode = ctx["opts"].get("io_mode", "reads")
+    ev = _io_logs(ctx)            # what construction of this action did
+    if mode == "lazy":
+        with warnings.catch_warnings():
+            warnings.simplefilter("ignore")
+            iosrc.set_phase("inspecting")
+            for f in (lambda: d.shape, lambda: d.chunks, lambda: d.dtype, lambda: d.name, lambda: d.__dask_keys__(), lambda: repr(d),
+                      lambda: len(d), lambda: d.numblocks, lambda: d.transfer_bytes, lambda: d._repr_html_(), lambda: d.nbytes,
+                      lambda: d.size, lambda: d.npartitions, lambda: d.chunksize, lambda: str(d)):
+                try:
+                    f()
+                except Exception:
+                    pass
+            ev += _io_logs(ctx)
+            iosrc.set_phase("optimizing")
+            for f in (lambda: d.optimize(), lambda: d.simplify(), lambda: d.expr.optimize()):
+                try:
+                    f()
+                except Exception:
+                    pass
+            ev += _io_logs(ctx)
+            iosrc.set_phase("building")
+            try:
+                fresh(d).__dask_graph__()
+            except Exception:
+                pass
+            ev += _io_logs(ctx)
+    iosrc.set_phase("executing")
+    try:
+        with warnings.catch_warnings():
+            warnings.simplefilter("ignore")
+            got = spec_value(run_graph(fresh(d), True)[2])
+    except Exception as ex:
+        got = dict(RAISED, err=f"{type(ex).__name__}: {str(ex)[:160]}")
+    ev += _io_logs(ctx)
+    iosrc.set_phase("constructing")
+    shape = list(srcs[0].shape) if srcs else list(ctx["np_src"][0].shape)
+    if len(srcs) > 1:
+        return          # one recording source per program (the request log is per source shape)
+    ctx["emit"].append({"fn": "io", "at": k, "mode": mode, "shape": shape, "ev": ev, "got": got,
+                        "expect": {"shape": exp["shape"], "kind": exp["kind"], "data": exp["data"]}})
